@@ -189,13 +189,24 @@ func init() {
 		},
 	})
 	register(&PropConfig{
+		ID:       "C19",
+		Replay:   replayC19,
+		Probes:   []string{"sse.Handler.Send#probe"},
+		Level:    "other",
+		Packages: []string{"./cmd/templ/generatecmd/sse"},
+		Assume: []string{
+			"partial claim: crash freedom of the channel protocol only (no send on a closed channel, no second close, registry touched only under its mutex). Not decided by this technique: that every connected client receives every event, absence of deadlock and of blocked or leaked goroutines (liveness, schedules)",
+		},
+	})
+	register(&PropConfig{
 		ID:       "C18",
 		Probes:   []string{"jsonrpc2.stream.Write#probe"},
 		Replay:   replayC18,
 		Level:    "other",
 		Packages: []string{"./lsp/jsonrpc2"},
 		Assume: []string{
-			"partial claim: framing obligations only. Not decided by this technique: losslessness of json.Marshal/DecodeMessage, call/response matching, cancellation, absence of hangs (schedules and liveness)",
+			"partial claim: framing obligations and call matching (rely/guarantee over the channel and lock invariants). Not decided by this technique: losslessness of json.Marshal/DecodeMessage, uniqueness of ids among pending calls (the atomic counter is read as an arbitrary value), cancellation timing, absence of hangs and deadlocks (schedules and liveness); blocking of channel operations is not modelled",
+			"the ghost tag of a channel is chosen when the channel is initialised while fresh (made by this activation); channels are modelled by their identity only (no buffer contents, no blocking)",
 			"bufio.Reader / io.ReadFull / strconv.ParseInt / strings.TrimSpace behave as their models state; chunking of the byte stream is hidden behind the bufio.Reader contract",
 		},
 	})
